@@ -20,6 +20,7 @@ MENU = [
     ('[!h=z]', 'h', 'z', 'implied'), ('[e={x}]', 'e', 'x', 'expr'), ('[disabled]', 'disabled', None, 'listed'),
     ('[class=k]', 'class', 'k', None), ('[id=j]', 'id', 'j', None), ('[for=f]', 'for', 'f', None),
     ('[!k.]', 'k', None, 'implied'), ('[a=""]', 'a', '', None),
+    ('..c3', 'class', 'c3', None),        # doubled shorthand: still a class attribute (html / xml syntaxes only, see run_shard)
 ]
 OPTION_SPACE = {
     'output.attributeQuotes': ['double', 'single'],
@@ -27,6 +28,7 @@ OPTION_SPACE = {
     'output.compactBoolean': [False, True],
     'output.reverseAttributes': [False, True],
     'output.selfClosingStyle': ['html', 'xhtml', 'xml'],
+    'markup.attributes': [None, {'class': 'cls', 'id': 'ident', 'g': 'gg'}],
 }
 SYNTAXES = ['html', 'xml', 'jsx', 'vue']
 NAME_MAP = {'jsx': {'class': 'className', 'for': 'htmlFor'}}
@@ -105,7 +107,7 @@ def reference(ms, opts, syntax, explicit_list):
         elif not rev:
             d[name][0] = val
     q = "'" if opts.get('output.attributeQuotes') == 'single' else '"'
-    amap = NAME_MAP.get(syntax, {})
+    amap = opts.get('markup.attributes') or NAME_MAP.get(syntax, {})
     case = opts.get('output.attributeCase')
     style = opts.get('output.selfClosingStyle', 'xml' if syntax == 'xml' else 'html')
     res = []
@@ -121,7 +123,8 @@ def reference(ms, opts, syntax, explicit_list):
         if flag in ('bool', 'listed') and val is None:
             if opts.get('output.compactBoolean'):
                 if style != 'html':
-                    res.append((out, 'UNSPEC', None))
+                    # XML-style output: a bare attribute is not well-formed there; which value is written is left open
+                    res.append((out, 'XMLBOOL', None))
                 else:
                     res.append((out, None, None))
             else:
@@ -140,7 +143,7 @@ def check_merge(ms, share, opts, syntax, explicit_list, host=None):
     s = source(ms, share)
     if host:
         s = host % s
-    o = dict(opts)
+    o = dict((k, v) for k, v in opts.items() if v is not None)
     o['output.format'] = False
     if explicit_list:
         o['output.booleanAttributes'] = list(BOOL_LIST)
@@ -158,7 +161,8 @@ def check_merge(ms, share, opts, syntax, explicit_list, host=None):
     except Exception as e:
         return s, ('exception:%s' % type(e).__name__, str(e)[:200])
     for ci, got in enumerate(copies):
-        if not (len(got) == len(exp) and all(g == e or (e[1] == 'UNSPEC' and g[0] == e[0]) for g, e in zip(got, exp))):
+        if not (len(got) == len(exp) and all(g == e or (e[1] == 'XMLBOOL' and g[0] == e[0] and g[1] is not None and g[2] in ('', g[0]))
+                                             for g, e in zip(got, exp))):
             return s, (classify(exp, got) + (':copy-%d-of-repeated-element' % (ci + 1) if host else ''),
                        dict(abbr=s, expected=exp, actual=got, output=out[:200]))
     return s, None
@@ -176,7 +180,9 @@ def classify(exp, got):
             return 'attrs:name-case'
         return 'attrs:names'
     for e, g in zip(exp, got):
-        if e[1] == 'UNSPEC':
+        if e[1] == 'XMLBOOL':
+            if g[1] is None:
+                return 'attrs:bare-boolean-in-xml-style'
             continue
         if e[1] != g[1]:
             return 'attrs:quote'
@@ -203,10 +209,13 @@ def run_shard(shard, ctx, tier):
             names = [m[1] for m in ms]
             if any(m[3] and names.count(m[1]) > 1 for m in ms):
                 continue
+            doubled = any(m[0].startswith('..') for m in ms)
             merged = len(set(names)) < len(names)
             brackets_adjacent = any(ms[i][0][0] == '[' and ms[i + 1][0][0] == '[' for i in range(n - 1))
             for share in ((0, 1) if brackets_adjacent else (0,)):
                 for syntax in syns:
+                    if doubled and syntax in ('jsx', 'vue'):
+                        continue        # `class*` mappings / value prefixes of these syntaxes are left unspecified
                     for opts in osets:
                         for bl in bls:
                             ctx.tick((ms, opts))
